@@ -123,21 +123,24 @@ def run(report, tier: str, seed: int, prop: str) -> dict:
         cases.append(random_actions(rng, rng.choice([4, 8, 14, 20])))
     lines = [{"id": i, "acts": acts} for i, acts in enumerate(cases)]
     work = tlc.scratch_dir("vws-")
-    tf, vf = os.path.join(work, "in.ndjson"), os.path.join(work, "out.json")
+    vectors = []
     try:
-        with open(tf, "w") as fh:
-            for line in lines:
-                fh.write(json.dumps(line, separators=(",", ":")) + "\n")
-        rc_, o, s_ = tlc.run_tlc("WatchSets.tla", "WatchSets.cfg", env={"TRACE_FILE": tf, "VERDICT_FILE": vf}, workers=1, timeout=3000)
-        if not os.path.exists(vf) or "Error:" in o:
-            report.machinery(f"WatchSets replay failed:\n{o[-3000:]}")
-            return stats
-        with open(vf) as fh:
-            res = json.load(fh)
-        mm = re.search(r"(\d+) states generated, (\d+) distinct states found", o)
-        stats["states"] += int(mm.group(2)) if mm else 0
+        for b0 in range(0, len(lines), 500):
+            tf, vf = os.path.join(work, f"in{b0}.ndjson"), os.path.join(work, f"out{b0}.json")
+            with open(tf, "w") as fh:
+                for line in lines[b0:b0 + 500]:
+                    fh.write(json.dumps(line, separators=(",", ":")) + "\n")
+            rc_, o, s_ = tlc.run_tlc("WatchSets.tla", "WatchSets.cfg", env={"TRACE_FILE": tf, "VERDICT_FILE": vf}, workers=1, timeout=3000)
+            if not os.path.exists(vf) or "Error:" in o:
+                report.machinery(f"WatchSets replay batch {b0 // 500} failed:\n{o[-3000:]}")
+                return stats
+            with open(vf) as fh:
+                vectors.extend(json.load(fh)["vectors"])
+            mm = re.search(r"(\d+) states generated, (\d+) distinct states found", o)
+            stats["states"] += int(mm.group(2)) if mm else 0
     finally:
         shutil.rmtree(work, ignore_errors=True)
+    res = {"vectors": vectors}
     expected = {v["id"]: (v["states"] if isinstance(v["states"], list) else []) for v in res["vectors"]}
     nbad = 0
     for i, acts in enumerate(cases):
